@@ -214,6 +214,9 @@ func checkC13(w *World, r *Report) {
 	r.Rule("R13.4", "narrowing comparisons: validateRangeBoundaries refuses end<start, non-ascending starts and touching/overlapping parts; createRangeBdry refuses a start below the base minimum and an end above the base maximum; getLength does the same on lengths and tests subset-of-a-part on the resolved bounds only", 8)
 	r.guard("R13.4", func() { c13Narrowing(w, r) })
 
+	r.Rule("R13.6", "every restriction along the chain gets its say: in package schema no verdict (error result) of a restriction check is overwritten or dropped before it has been examined — in particular each pattern of each chain level is tested before the next one runs", 1)
+	r.guard("R13.6", func() { errRule(w, r, "R13.6", []string{"schema"}, nil) })
+
 	r.Rule("R13.5", "a default that the final type rejects is refused: validateDefault is called unconditionally on every path that returns a type from makeBuiltinType and refineType, and it validates the default with the type's own Validate", 3)
 	r.guard("R13.5", func() {
 		vd := w.Method("compile", "Compiler", "validateDefault")
